@@ -119,6 +119,58 @@ fn find_all(text: &str, needle: &str) -> Vec<usize> {
     v
 }
 
+/// Stacked diamonds: a<i> includes b<i> and c<i>, which both include a<i+1>; `cross`: b<i> and c<i>
+/// include each other as well. 3*levels+1 files, reached along 2^levels paths.
+fn check_ladder(levels: usize, cross: bool) -> Verdict {
+    let mut files: Vec<(String, String)> = Vec::new();
+    let mut nedges = 0u64;
+    for i in 0..=levels {
+        let mut a = format!("class A{i};\n");
+        if i < levels {
+            a.push_str(&format!("include \"b{i}.td\"\ninclude \"c{i}.td\"\ndef da{i} : B{i};\n"));
+            nedges += 2;
+            for (x, y, cx, cy) in [("b", "c", "B", "C"), ("c", "b", "C", "B")] {
+                let mut t = format!("class {cx}{i};\ninclude \"a{}.td\"\ndef d{x}{i} : A{};\n", i + 1, i + 1);
+                nedges += 1;
+                if cross {
+                    t.push_str(&format!("include \"{y}{i}.td\"\ndef e{x}{i} : {cy}{i};\n"));
+                    nedges += 1;
+                }
+                files.push((format!("{x}{i}.td"), t));
+            }
+        }
+        files.push((format!("a{i}.td"), a));
+    }
+    let total: usize = files.iter().map(|f| f.1.len()).sum();
+    wsq::budgets_on(total);
+    // every file is collected once and every include statement followed once
+    ide::verif::reset(64 + 16 * (files.len() as u64 + nedges));
+    let ws = Workspace::new(&files, "a0.td");
+    let a = ws.analysis();
+    let diags = a.diagnostics();
+    let _ = a.document_symbol(ws.root);
+    wsq::budgets_off();
+    let fail = |oracle: &str, detail: String| Verdict::Fail(Failure::new(oracle, format!("{oracle}:ladder"), format!("ladder of {levels} diamonds (cross includes: {cross}): {detail}")));
+    let got: BTreeSet<String> = diags.keys().filter_map(|f| ws.fs.path_of(*f)).collect();
+    let want: BTreeSet<String> = files.iter().map(|f| abs(&f.0)).collect();
+    if got != want {
+        return fail("C16.reachability", format!("{} workspace files, expected {}", got.len(), want.len()));
+    }
+    for (name, text) in &files {
+        let Some(fid) = ws.fs.id_of(&abs(name)) else { return fail("C16.reachability", format!("no id for {name}")) };
+        let ds = diags.get(&fid).cloned().unwrap_or_default();
+        if !ds.is_empty() {
+            return fail("C16.spurious-diagnostic", format!("{name}: {:?}", ds.iter().map(|d| d.message.clone()).collect::<Vec<_>>()));
+        }
+        let links = a.document_link(fid).unwrap_or_default();
+        let want_links = find_all(text, "include \"").len();
+        if links.len() != want_links {
+            return fail("C16.links", format!("{name}: {} links for {want_links} include statements", links.len()));
+        }
+    }
+    Verdict::Pass { nontrivial: levels >= 2, labels: vec!["ladder of diamonds"] }
+}
+
 fn check(n: usize, edges: u64, variant: u64) -> Verdict {
     let (files, adj) = build(n, edges, variant);
     let total: usize = files.iter().map(|f| f.1.len()).sum();
@@ -314,7 +366,7 @@ impl Property for C16 {
         true
     }
     fn rule(&self) -> String {
-        "exhaustive: every edge set (self-loops included) over <=3 files (thorough: <=4, all 65536) x 10 variants {plain, +missing includes (at the end of the root; first in every other file, with the same extent as the root's first include), last file only in INCLUDE_DIR, last file in both directory and INCLUDE_DIR, every include written twice, root's includes nested in a block (let / foreach / if / a foreach inside a multiclass, by graph), two directories that each hold their own common.td included everywhere by the same text, no file but the root declaring anything by name (the others hold a missing include, their includes and an anonymous def of the root's class: every diagnostic and every reference exactly once however many paths lead to a file), every include statement written with a comment between the keyword and the file name, an include statement with an empty file name in every file}; quick adds 3000 sampled 4-file graphs; thorough adds random graphs over 5..8 files. Each file = class K<i>; its include statements; one def per included file using that file's class. Oracle: set_root_file + index terminate (traversal budget), keys(diagnostics()) = reference reachable set, document links = one per resolvable include statement on its string literal with the reference target, a diagnostic on each unresolvable include and none elsewhere, each declaration once in its file's outline, references(K<j>) = its uses in every reachable includer. distinct = digest; non-trivial = the graph has a cycle or a diamond, or the variant is not plain".into()
+        "exhaustive: every edge set (self-loops included) over <=3 files (thorough: <=4, all 65536) x 10 variants {plain, +missing includes (at the end of the root; first in every other file, with the same extent as the root's first include), last file only in INCLUDE_DIR, last file in both directory and INCLUDE_DIR, every include written twice, root's includes nested in a block (let / foreach / if / a foreach inside a multiclass, by graph), two directories that each hold their own common.td included everywhere by the same text, no file but the root declaring anything by name (the others hold a missing include, their includes and an anonymous def of the root's class: every diagnostic and every reference exactly once however many paths lead to a file), every include statement written with a comment between the keyword and the file name, an include statement with an empty file name in every file}; family diamond-ladders: 1..89 stacked diamonds (up to 268 files reached along 2^89 paths, with and without cross includes inside a level) within a traversal budget linear in files + include statements; quick adds 3000 sampled 4-file graphs; thorough adds random graphs over 5..8 files. Each file = class K<i>; its include statements; one def per included file using that file's class. Oracle: set_root_file + index terminate (traversal budget), keys(diagnostics()) = reference reachable set, document links = one per resolvable include statement on its string literal with the reference target, a diagnostic on each unresolvable include and none elsewhere, each declaration once in its file's outline, references(K<j>) = its uses in every reachable includer. distinct = digest; non-trivial = the graph has a cycle or a diamond, or the variant is not plain".into()
     }
     fn assumptions(&self) -> Vec<String> {
         vec!["search order from the documentation: directory of the including file, then $INCLUDE_DIR (set once per process to a virtual directory)".into()]
@@ -333,6 +385,19 @@ impl Property for C16 {
                 .exhaustive(),
             );
         }
+        // deep graphs: stacked diamonds, reached along 2^levels paths (work must follow the graph, not the paths)
+        v.push(
+            Family::new("diamond-ladders", 1, |_c, _r, emit| {
+                for levels in [1u64, 2, 3, 5, 8, 13, 21, 34, 55, 89] {
+                    for cross in [false, true] {
+                        if !emit(json!({"kind": "ladder", "levels": levels, "cross": cross})) {
+                            return;
+                        }
+                    }
+                }
+            })
+            .exhaustive(),
+        );
         if ctx.tier == Tier::Thorough {
             v.push(
                 Family::new("all-graphs-4", 10 * 16, |chunk, _r, emit| {
@@ -375,6 +440,10 @@ impl Property for C16 {
         v
     }
     fn run_case(&self, _ctx: &Ctx, case: &Case) -> Verdict {
+        if case["kind"] == "ladder" {
+            let Some(levels) = case["levels"].as_u64() else { return Verdict::Skip("malformed-case") };
+            return check_ladder((levels as usize).clamp(1, 200), case["cross"].as_bool() == Some(true));
+        }
         let (Some(n), Some(e), Some(v)) = (case["n"].as_u64(), case["edges"].as_u64(), case["variant"].as_u64()) else {
             return Verdict::Skip("malformed-case");
         };
